@@ -788,9 +788,11 @@ func MakeConnWithCompleteHandshake(tcpConn net.Conn, version uint16, cipherSuite
 		var clientCipher, serverCipher interface{}
 		var clientHash, serverHash hash.Hash
 		if cs.cipher != nil {
-			clientCipher = cs.cipher(clientKey, clientIV, true /* for reading */)
+			// The client writes with the client keys and reads with the server keys;
+			// the server does the opposite.
+			clientCipher = cs.cipher(clientKey, clientIV, !isClient /* for reading iff server */)
 			clientHash = cs.mac(clientMAC)
-			serverCipher = cs.cipher(serverKey, serverIV, false /* not for reading */)
+			serverCipher = cs.cipher(serverKey, serverIV, isClient /* for reading iff client */)
 			serverHash = cs.mac(serverMAC)
 		} else {
 			clientCipher = cs.aead(clientKey, clientIV)
